@@ -637,6 +637,23 @@ def build_scenarios(ck):
         sc["no_model"] = True
         if some:
             scs.append(sc)
+    # (g) two concurrent send_offsets_to_transaction() calls for the same group and partitions, the second with newer
+    #     offsets, landing before / while / after the first call's TxnOffsetCommit is on the wire (a delayed reply widens
+    #     the window).  Monitors only (the model has one pending offsets entry per call, not the overlap).
+    for again in (0.0, 0.0005, 0.001, 0.002, 0.004, 0.008, 0.02, 0.1):
+        for end in ("commit", "abort"):
+            sc = gen_scenario(rng, sid)
+            sid += 1
+            sc["instances"] = sc["instances"][:1]
+            t = sc["instances"][0]["txns"][0]
+            t["offsets"] = {"at": rng.choice(["before", "after"]), "items": None, "again": again}
+            t["end"] = end
+            sc["instances"][0]["txns"] = [t]
+            sc["faults"] = {"TxnOffsetCommit:1": mk_fault("delay", 0)} if again >= 0.002 else {}
+            number_offsets(sc)
+            sc["family"] = "overlapping-offset-commits"
+            sc["no_model"] = True
+            scs.append(sc)
     # (e) older broker releases that support transactions (0.11 .. 2.3: other versions of Produce, the five
     #     transactional APIs, FindCoordinator, Metadata)
     from simkit import profiles
